@@ -68,6 +68,16 @@ COPY = {'aten.copy_.default', 'aten._to_copy.default', 'aten.to.dtype', 'aten.to
         'aten.to.dtype_layout'}
 READS = {'aten._local_scalar_dense.default', 'aten.item.default', 'aten.is_nonzero.default',
          'aten.equal.default', 'aten.allclose.default'}
+NONLINEAR_PREFIXES = (
+    'aten.clamp', 'aten.abs', 'aten.relu', 'aten.sqrt', 'aten.rsqrt', 'aten.pow', 'aten.exp', 'aten.log',
+    'aten.tanh', 'aten.sigmoid', 'aten.sign', 'aten.sgn', 'aten.max', 'aten.min', 'aten.amax', 'aten.amin',
+    'aten.sort', 'aten.topk', 'aten.round', 'aten.floor', 'aten.ceil', 'aten.trunc', 'aten.hardtanh',
+    'aten.threshold', 'aten.where', 'aten.masked_fill', 'aten.norm', 'aten.linalg_vector_norm', 'aten.std',
+    'aten.var', 'aten.reciprocal', 'aten.square', 'aten.softmax', 'aten._softmax', 'aten.gt', 'aten.lt',
+    'aten.ge', 'aten.le', 'aten.eq', 'aten.ne', 'aten.isnan', 'aten.isfinite', 'aten.nan_to_num',
+    'aten.argmax', 'aten.argmin', 'aten.nonzero', 'aten.any', 'aten.all', 'aten.median', 'aten.leaky_relu',
+    'aten.gelu', 'aten.silu', 'aten.sin', 'aten.cos', 'aten.atan2', 'aten.hypot', 'aten.fmod', 'aten.remainder',
+    'aten.maximum', 'aten.minimum', 'aten.dropout', 'aten.native_dropout', 'aten.bernoulli')
 ZEROING = {'aten.zero_.default', 'aten.fill_.Scalar', 'aten.zeros.default'}
 
 
@@ -231,6 +241,9 @@ class DispatchMonitor(TorchDispatchMode):
             bad = 'reads an input-dependent tensor into Python (data-dependent control flow)'
         elif name in ZEROING:
             return
+        elif name.startswith(NONLINEAR_PREFIXES) and name.split('.')[1].rstrip('_') in {
+                p.split('.')[1] for p in NONLINEAR_PREFIXES}:
+            bad = 'applies the non-linear operator %s to input-dependent data' % name
         else:
             self.unclassified[name] = self.unclassified.get(name, 0) + 1
         if bad:
